@@ -106,6 +106,6 @@ def judge(case):
     fired = s_on["shared"] > s_off["shared"] or s_on["transformed"] > 0 or s_on["distinct"] < s_off["distinct"]
     if fired:
         v.cls("reuse-fired")
-    near = any(p.get("tag", "").endswith("near_miss") for s in case["sources"] for p in __import__("vlib.gen_svg", fromlist=["model_paths"]).model_paths(s["model"]))
+    near = any("near_miss" in p.get("tag", "") for s in case["sources"] for p in __import__("vlib.gen_svg", fromlist=["model_paths"]).model_paths(s["model"]))
     v.nontrivial = fired or near
     return v
